@@ -26,7 +26,11 @@ pub enum Ev {
     GetCollectionMut,
     Edit { op: Op },
     NewSheet { name: String },
-    RemoveSheet { i: usize },
+    RemoveSheet {
+        i: usize,
+        #[serde(default)]
+        by_name: bool,
+    },
     Rename { i: usize, name: String },
     BookInsertRow { i: usize, row: u32, n: u32 },
     BookRemoveCol { i: usize, col: u32, n: u32 },
@@ -151,6 +155,7 @@ pub fn execute(case: &Value, _scratch: &str) -> Outcome {
     let chunk = case["chunk"].as_u64().unwrap_or(0) as usize;
     let chunk_seed = get_u64(case, "chunk_seed");
     let src_kind = case["source"]["kind"].as_str().unwrap_or("generated").to_string();
+    let generated = src_kind == "generated";
 
     // eager twin and the original eager dump
     let twin0 = guarded(|| world::load_mem(&bytes, true));
@@ -346,11 +351,15 @@ pub fn execute(case: &Value, _scratch: &str) -> Outcome {
                         out.violate(Verdict::new("C11", "C11:materialised-differs", &[("when", "new_sheet")], format!("step {}: new_sheet lazy={} eager={}", k, a, b)));
                     }
                 }
-                Ev::RemoveSheet { i } => {
+                Ev::RemoveSheet { i, by_name } => {
                     if n > 1 {
                         let i = *i % n;
-                        let a = lazy.remove_sheet(i).is_ok();
-                        let b = twin.remove_sheet(i).is_ok();
+                        let (a, b) = if *by_name {
+                            let name = lazy.get_sheet_collection_no_check()[i].get_name().to_string();
+                            (lazy.remove_sheet_by_name(&name).is_ok(), twin.remove_sheet_by_name(&name).is_ok())
+                        } else {
+                            (lazy.remove_sheet(i).is_ok(), twin.remove_sheet(i).is_ok())
+                        };
                         if a && b {
                             track.remove(i);
                             if track.iter().any(|t| !t.materialised) {
@@ -515,6 +524,17 @@ pub fn execute(case: &Value, _scratch: &str) -> Outcome {
                             }
                         }
                     }
+                    // against the MODEL, not only against the eager twin's file: sheet list, defined names with
+                    // their scopes and every sheet annotation of the reloaded file are what the workbook holds
+                    // (generated sources, for which this round trip is exact; a mistake the eager path shares
+                    // - a stale localSheetId after a sheet was removed by name - is still a broken save)
+                    if generated {
+                        if let (Ok(pm), Ok(pl)) = (guarded(|| crate::c06::project(&twin)), guarded(|| crate::c06::project(&l2))) {
+                            if let Some((kind, detail)) = crate::c06::first_diff(&pm, &pl) {
+                                out.violate(Verdict::new("C11", "C11:content-differs", &[("what", "annotations-vs-model"), ("kind", &kind), ("raw_sheets", rawf)], format!("step {}: after save+reload {} differs from the workbook: {}", k, kind, detail.chars().take(300).collect::<String>())));
+                            }
+                        }
+                    }
                     // workbook-level: defined names, active tab
                     let wl = world::dump_book(&l2, false);
                     let wt = world::dump_book(&t2, false);
@@ -564,9 +584,14 @@ fn apply_event_eager(b: &mut umya::Spreadsheet, ev: &Ev) {
         Ev::NewSheet { name } => {
             let _ = b.new_sheet(name.clone());
         }
-        Ev::RemoveSheet { i } => {
+        Ev::RemoveSheet { i, by_name } => {
             if n > 1 {
-                let _ = b.remove_sheet(*i % n);
+                if *by_name {
+                    let name = b.get_sheet_collection_no_check()[*i % n].get_name().to_string();
+                    let _ = b.remove_sheet_by_name(&name);
+                } else {
+                    let _ = b.remove_sheet(*i % n);
+                }
             }
         }
         Ev::Rename { i, name } => {
@@ -590,7 +615,7 @@ fn apply_event_eager(b: &mut umya::Spreadsheet, ev: &Ev) {
 
 fn op_sheet(op: &Op) -> Option<usize> {
     match op {
-        Op::SetText { sheet, .. } | Op::SetRich { sheet, .. } | Op::SetNum { sheet, .. } | Op::SetBool { sheet, .. } | Op::SetFormula { sheet, .. } | Op::SetBlank { sheet, .. } | Op::RemoveCell { sheet, .. } | Op::Bold { sheet, .. } | Op::NumFmt { sheet, .. } | Op::FillColor { sheet, .. } | Op::Hyperlink { sheet, .. } | Op::Comment { sheet, .. } | Op::Merge { sheet, .. } | Op::DefinedName { sheet, .. } | Op::LocalName { sheet, .. } | Op::SheetRemoveRow { sheet, .. } | Op::SheetRemoveCol { sheet, .. } | Op::SheetInsertRow { sheet, .. } | Op::ColWidth { sheet, .. } | Op::RowHeight { sheet, .. } | Op::SetState { sheet, .. } | Op::Table { sheet, .. } | Op::CommentRich { sheet, .. } | Op::EditComment { sheet, .. } | Op::Format { sheet, .. } | Op::HideRow { sheet, .. } | Op::HideCol { sheet, .. } | Op::ClearComments { sheet } | Op::RowStyle { sheet, .. } | Op::ColStyle { sheet, .. } | Op::Image { sheet, .. } => Some(*sheet),
+        Op::SetText { sheet, .. } | Op::SetRich { sheet, .. } | Op::SetNum { sheet, .. } | Op::SetBool { sheet, .. } | Op::SetFormula { sheet, .. } | Op::SetBlank { sheet, .. } | Op::RemoveCell { sheet, .. } | Op::Bold { sheet, .. } | Op::NumFmt { sheet, .. } | Op::FillColor { sheet, .. } | Op::Hyperlink { sheet, .. } | Op::Comment { sheet, .. } | Op::Merge { sheet, .. } | Op::DefinedName { sheet, .. } | Op::LocalName { sheet, .. } | Op::SheetRemoveRow { sheet, .. } | Op::SheetRemoveCol { sheet, .. } | Op::SheetInsertRow { sheet, .. } | Op::SheetInsertCol { sheet, .. } | Op::ColWidth { sheet, .. } | Op::RowHeight { sheet, .. } | Op::SetState { sheet, .. } | Op::Table { sheet, .. } | Op::CommentRich { sheet, .. } | Op::EditComment { sheet, .. } | Op::Format { sheet, .. } | Op::HideRow { sheet, .. } | Op::HideCol { sheet, .. } | Op::ClearComments { sheet } | Op::RowStyle { sheet, .. } | Op::ColStyle { sheet, .. } | Op::Image { sheet, .. } => Some(*sheet),
         _ => None,
     }
 }
@@ -698,7 +723,7 @@ pub fn cases(run_seed: u64, tier: &str, _scratch: &str) -> Vec<Value> {
                 7 => Ev::GetCollectionMut,
                 8 => Ev::Edit { op: world::gen_cell_op(&mut wl, &cfg, &format!("e{}.{}", hno, k)) },
                 9 => Ev::NewSheet { name: format!("New{}_{}", hno, k) },
-                10 => Ev::RemoveSheet { i },
+                10 => Ev::RemoveSheet { i, by_name: sc.chance(1, 2) },
                 11 => Ev::Rename { i, name: format!("Ren{}_{}", hno, k) },
                 12 => Ev::BookInsertRow { i, row: 1 + sc.below(4) as u32, n: 1 + sc.below(2) as u32 },
                 13 => Ev::BookRemoveCol { i, col: 1 + sc.below(4) as u32, n: 1 },
